@@ -54,9 +54,9 @@ PROPS = {
     "C16": dict(
         level="exploration",
         rule="Message.Answer over the header space: all 256 flag bytes x the 16 boundary identifier pairs {0,1,2^31,2^32-1}^2 plus random pairs, commands/applications of every dictionary context plus undefined ones, result codes 0 / 2xxx / 3xxx / 5xxx / random; every answer is serialised and checked field by field by the reference decoder. CEA (success and every error class) and DWA produced by the state machine, and the transport stream of replies on the in-memory SCTP association (streams 0..15 and 65535), are checked by the same mirror oracle. distinct_nontrivial counts distinct (identifier class, R, P, result-code-zero) classes and (source, stream) classes.",
-        runs=dict(quick=[plain("TestC16", 8)], thorough=[plain("TestC16", 16, 3000)]),
+        runs=dict(quick=[plain("TestC16", 8), race("TestC16Stream", 4)], thorough=[plain("TestC16", 16, 3000), race("TestC16Stream", 8, 3000)]),
         floor=dict(quick=2000, thorough=30000),
-        need_events=["answers_checked"],
+        need_events=["answers_checked", "stream_answers_checked"],
         assumptions=TRUST,
     ),
     "C04": dict(
@@ -180,5 +180,13 @@ PROPS = {
         floor=dict(quick=600, thorough=10000),
         need_events=["scenarios", "faults_injected", "answers_matched"],
         assumptions=TRUST,
+    ),
+    "C19": dict(
+        level="exploration",
+        rule="through the verif hook: an in-memory SCTP association (per-read stream tag, partial delivery) consumed exactly as in production by diam.NewConn(VerifNewSCTPConn(backend)) -> conn.serve -> ReadMessage. Small cases (1..3 streams out of 0..15 and 65535, 1..2 numbered messages each, up to 8 chunks in total, cuts inside headers, on boundaries and spanning messages): every interleaving of the per-stream chunk sequences, each delivered both chunk by chunk with quiescence in between and all at once; large cases (up to 16 streams, 6 messages of 20..5020 bytes per stream): random interleavings. Oracle: per stream the handler's log equals the sent ids in order, exactly once, with intact bytes and the sending stream as MessageStream(); every request gets exactly one SCTPWrite carrying one whole answer on the request's stream with the Diameter PPID; at every quiescent point VerifCheckStreams (heap order by buffered length, idx consistency, map/heap agreement, under the demultiplexer's own mutex) and conservation (delivered - handled - buffered >= 0 per stream, > 0 for at most one stream, all zero at the end); CloseNotify's error handler installed concurrently with reads and its channel closed after EOF. distinct_nontrivial counts distinct (size class, number of streams, number of chunks) classes.",
+        runs=dict(quick=[race("TestC19", 12)], thorough=[race("TestC19", 16, 6000)]),
+        floor=dict(quick=500, thorough=20000),
+        need_events=["merges", "exhaustive_small_cases", "quiescent_points", "replies_checked"],
+        assumptions=TRUST + ["the kernel's SCTP is replaced by a model of its socket semantics (hook file diam/sctp_verif.go, build tag verif); concurrent readers of one association are outside the property"],
     ),
 }
